@@ -63,6 +63,28 @@ fn run_named(threads: usize, calls: usize, shared_name: bool, name: &'static str
     println!("C20-RESULT threads={} calls={} shared_name={} name_part={:?} executions={} distinct_outcomes={}", threads, calls, shared_name, name, EXECUTIONS.load(Ordering::SeqCst), outcomes);
 }
 
+/// The file system as an environment answer: files already exist under the names the first counter values
+/// produce (a leftover of an earlier process with the same pid). Names must still be pairwise distinct.
+#[test]
+fn c20_2x2_preexisting_files() {
+    let name = "preexisting";
+    let mut created = Vec::new();
+    for k in 0..3 {
+        let mut p = std::env::temp_dir();
+        p.push(format!("{}_{}_{}", name, std::process::id(), k));
+        if std::fs::write(&p, b"x").is_ok() {
+            created.push(p);
+        }
+    }
+    let r = std::panic::catch_unwind(|| run_named(2, 2, true, "preexisting"));
+    for p in created {
+        let _ = std::fs::remove_file(p);
+    }
+    if let Err(e) = r {
+        std::panic::resume_unwind(e);
+    }
+}
+
 #[test]
 fn c20_2x1() { run(2, 1, true); }
 #[test]
